@@ -108,8 +108,6 @@ CHECKS += [
          technique="stateful model-based property testing of the real Syncer/Controller over in-memory interface implementations with fault injection + instant-of-promotion oracle in the cluster simulation"),
 ]
 
-_claimed = {c["property_id"] for c in CHECKS}
-NOT_APPLICABLE = [dict(property_id=p, reason="check not built yet in this revision (framework under construction; see DESIGN.md build order)") for p in ALL if p not in _claimed]
 
 CHECKS += [
     dict(property_id="C16", category="exploration",
@@ -126,3 +124,8 @@ CHECKS += [
          note="Trusted: the fake servers' variables and channels are the ground truth; failing reads on the master are not injected (the property presumes a healthy reachable master); hosts that ever had an SQL error are exempt from 'replication runs' (their repair budget may be spent) but not from 'points at the master'.",
          technique="property-based testing of the real repair loop over fake servers: generated initial states and fault schedules, instant-of-statement invariants plus an end-state validity predicate; exhaustive enumeration of a reduced grid"),
 ]
+
+
+# ---- computed last, after every CHECKS += above
+_claimed = {c["property_id"] for c in CHECKS}
+NOT_APPLICABLE = [dict(property_id=p, reason="check not built yet in this revision (framework under construction; see DESIGN.md build order)") for p in ALL if p not in _claimed]
